@@ -210,6 +210,8 @@ def release (s : Ctx) : Ctx :=
   | .state => cst K.XMP_STATE_UNLOADED
   | .m_mod_xxt | .m_mod_xxp | .m_mod_xxi | .m_mod_xxs | .m_xtra | .m_midi | .m_scan_cnt | .p_scan
   | .m_comment | .m_dirname | .m_basename => null
+  -- libxmp_release_module_extras: MED/HMN/FAR extras are freed and NULLed, other formats never set it
+  | .m_extra => null
   | f => s1 f
 
 /-- successful `xmp_load_module*` -/
@@ -275,41 +277,75 @@ def muteOf (s : Ctx) (i : Nat) : Int :=
     (if (s .m_mod_xxc_flg i).toNat &&& K.XMP_CHANNEL_MUTE.toNat != 0 then 1 else 0)
   else 0
 
-/-- `xmp_start_player` after `libxmp_mixer_on`: everything up to `ctx->state = XMP_STATE_PLAYING` -/
-def startCore (X : Ext) (s : Ctx) : Ctx :=
-  let ext := X.start (restrict StartReads s)
-  fun f => match f with
+/-- everything `xmp_start_player` computes from the loaded module before it writes the player state -/
+structure StartIn where
+  ext : Field → Val
+  len : Int
+  ord : Nat
+  speed : Int
+  bpm : Int
+  gvl : Int
+  time : Int
+  st26 : Int
+  frameTime : Int
+  numTracks : Int
+  virtCh : Int
+  maxvoc : Int
+  mute : Val
+  scan : Val
+
+def startIn (X : Ext) (s : Ctx) : StartIn where
+  ext := X.start (restrict StartReads s)
+  len := startLen s
+  ord := startOrd s
+  -- update_from_ord_info
+  speed := if s .m_xxo_info_speed (startOrd s) ≠ 0 then s .m_xxo_info_speed (startOrd s) else s .p_speed 0
+  bpm := s .m_xxo_info_bpm (startOrd s)
+  gvl := s .m_xxo_info_gvl (startOrd s)
+  time := s .m_xxo_info_time (startOrd s)
+  st26 := s .m_xxo_info_st26_speed (startOrd s)
+  frameTime := X.frameTime (s .m_time_factor 0) (s .m_rrate 0) (s .m_xxo_info_bpm (startOrd s))
+  -- libxmp_virt_on
+  numTracks := s .m_mod_chn 0 + s .smix_chn 0
+  virtCh := virtChannels s
+  maxvoc := maxVoc s
+  mute := muteOf s
+  scan := s .p_scan
+
+/-- the writes of `xmp_start_player` after `libxmp_mixer_on` and `libxmp_reset_flow` -/
+def startWrite (a : StartIn) (base : Ctx) : Ctx
   | .p_master_vol | .p_smix_vol => cst 100
   | .p_pos | .p_row | .p_loop_count | .p_sequence => cst 0
   | .p_frame => cst (-1)
-  | .p_ord => cst (startOrd s)
-  | .m_mod_len => cst (startLen s)
-  | .p_channel_mute => muteOf s
+  | .p_ord => cst a.ord
+  | .m_mod_len => cst a.len
+  | .p_channel_mute => a.mute
   | .p_channel_vol => cst 100
   | .p_inject_event_note | .p_inject_event_ins | .p_inject_event_vol | .p_inject_event_fxt
   | .p_inject_event_fxp | .p_inject_event_f2t | .p_inject_event_f2p | .p_inject_event_flag => cst 0
-  | .p_flow_num_rows => if startLen s = 0 then cst 0 else cst (ext .p_flow_num_rows (startOrd s))
-  | .p_flow_end_point => if startLen s = 0 then cst 0 else cst (ext .p_flow_end_point 0)
-  | .p_scan => if startLen s = 0 then ptr (ext .p_scan 1) else s .p_scan
-  -- update_from_ord_info
-  | .p_speed => cst (if s .m_xxo_info_speed (startOrd s) ≠ 0 then s .m_xxo_info_speed (startOrd s) else s .p_speed 0)
-  | .p_bpm => cst (s .m_xxo_info_bpm (startOrd s))
-  | .p_gvol => cst (s .m_xxo_info_gvl (startOrd s))
-  | .p_current_time => cst (s .m_xxo_info_time (startOrd s) * 1000)
-  | .p_frame_time => cst (X.frameTime (s .m_time_factor 0) (s .m_rrate 0) (s .m_xxo_info_bpm (startOrd s)))
-  | .p_st26_speed => cst (s .m_xxo_info_st26_speed (startOrd s))
-  -- libxmp_virt_on
-  | .p_virt_num_tracks => cst (s .m_mod_chn 0 + s .smix_chn 0)
-  | .p_virt_virt_channels => cst (virtChannels s)
-  | .p_virt_maxvoc => cst (maxVoc s)
+  | .p_flow_num_rows => if a.len = 0 then cst 0 else cst (a.ext .p_flow_num_rows a.ord)
+  | .p_flow_end_point => if a.len = 0 then cst 0 else cst (a.ext .p_flow_end_point 0)
+  | .p_scan => if a.len = 0 then ptr (a.ext .p_scan 1) else a.scan
+  | .p_speed => cst a.speed
+  | .p_bpm => cst a.bpm
+  | .p_gvol => cst a.gvl
+  | .p_current_time => cst (a.time * 1000)
+  | .p_frame_time => cst a.frameTime
+  | .p_st26_speed => cst a.st26
+  | .p_virt_num_tracks => cst a.numTracks
+  | .p_virt_virt_channels => cst a.virtCh
+  | .p_virt_maxvoc => cst a.maxvoc
   | .p_virt_virt_used => cst 0
-  | .p_virt_voice_array => ptr (ext .p_virt_voice_array 1)
-  | .p_virt_virt_channel => ptr (ext .p_virt_virt_channel 1)
-  | .p_flow_loop => ptr (ext .p_flow_loop 1)
-  | .p_xc_data => ptr (ext .p_xc_data 1)
+  | .p_virt_voice_array => ptr (a.ext .p_virt_voice_array 1)
+  | .p_virt_virt_channel => ptr (a.ext .p_virt_virt_channel 1)
+  | .p_flow_loop => ptr (a.ext .p_flow_loop 1)
+  | .p_xc_data => ptr (a.ext .p_xc_data 1)
   | .p_buffer_data_consumed | .p_buffer_data_in_size => cst 0
   | .state => cst K.XMP_STATE_PLAYING
-  | f => resetFlow s f
+  | f => base f
+
+/-- `xmp_start_player` after `libxmp_mixer_on`: everything up to `ctx->state = XMP_STATE_PLAYING` -/
+def startCore (X : Ext) (s : Ctx) : Ctx := startWrite (startIn X s) (resetFlow s)
 
 /-- `xmp_start_player`, success path (rate accepted, allocations succeed), on a LOADED or PLAYING context -/
 def startPlayer (X : Ext) (rate format : Int) (s0 : Ctx) : Ctx :=
